@@ -22,16 +22,16 @@ SPLIT_HANDLERS = [SP + "_handle_explicit_comment", SP + "_handle_preamble", SP +
 SPLIT_LEMMAS = ["nls-run", "nls-monotone", "bal-skips-newlines", "field-state-skips-newlines", "slice-is-region"]
 MARK_NOTE = (STD_NOTE + "; A-RE (ASSUMED, validated bounded every run by native/a_re.py against the pattern the running code passes to re.finditer): "
              "the marks are non-empty, ordered, non-overlapping, each one of { } \" , = newline or an '@word' directly followed by a '{' mark; "
-             "match objects and the iterator are modelled by ghost arrays and a ghost cursor (pyvc/marks.py); the contract of "
-             "Splitter._end_implicit_comment is ASSUMED in split() (38 of its 40 obligations discharge, 2 string obligations stay undecided; "
-             "checked bounded by native p03); Library.add / Library() enter through their C08 contracts (add re-proved for fail_on_duplicate_key=False: no exception)")
+             "match objects and the iterator are modelled by ghost arrays and a ghost cursor (pyvc/marks.py); Splitter._end_implicit_comment "
+             "is verified in full (50 obligations); what str.rstrip does to the rest of a free-text region -- removes exactly the trailing whitespace, "
+             "returns '' exactly for an all-whitespace string -- is a fact about the builtin that is stated, not proved (A-STR); Library.add / Library() enter through their C08 contracts (add re-proved for fail_on_duplicate_key=False: no exception)")
 PROPS = {
     "C01": {
         "level": "other",
         "level_text": "Mixed. Proved on the real splitter functions, for every mark sequence of any length (A-RE assumed): Splitter.split raises nothing and terminates (a decreasing measure over the marks on every loop: split, _next_mark, the three scanners); every block handler raises nothing but BlockAbortedException, which split turns into a ParsingFailedBlock carrying the error and raw = text[start of '@' : end_index] with start <= end_index; the parser-state / regex-mismatch branches are dead code; _next_mark's newline skipping is a loop (no recursion depth); Library.add is called so that it cannot raise. Bounded (native, labelled): parse_string / write_string end to end (middleware stacks, writer on failed blocks, deepcopy of errors), arbitrary Unicode, size-scaled families, hangs.",
         "level_note": MARK_NOTE,
         "modules": ["schema", "library", "model", "splitter"],
-        "functions": SPLIT_SCANNERS + SPLIT_HANDLERS + [SP + "split", SP + "_end_implicit_comment", LB + "add#single-quiet", LB + "__init__#empty"],
+        "functions": SPLIT_SCANNERS + SPLIT_HANDLERS + [SP + "split", SP + "_end_implicit_comment", SP + "_end_implicit_comment#for-split", LB + "add#single-quiet", LB + "__init__#empty"],
         "lemmas": SPLIT_LEMMAS,
         "native": "p01",
         "assumption_checks": ["A-RE"],
@@ -50,22 +50,22 @@ PROPS = {
     },
     "C03": {
         "level": "other",
-        "level_text": "Mixed. Proved on the real splitter functions (A-RE assumed): the line counter equals the number of newline marks consumed minus one at every call boundary (scan invariant), every block's start_line is the line of its '@' mark and every field's start_line the line of its '='; raw of a block is text[start of '@' : end of its closing '}'], raw of a failed block is text[start of '@' : end_index] where end_index is the start of the handed-back mark or the end of the text, the next free text starts exactly there (no character between a failed block and what follows is dropped or shared), and the pending free-text start never lies beyond unconsumed text; TILING as a postcondition of split(): ghost code records one region of the text per step -- the free text handed to _end_implicit_comment and the raw text of every block or failed block added to the library -- and the regions are consecutive, start at 0, end at the end of the text, and the raw of every block region is exactly that piece of the text (also through Library.add's duplicate wrappers), so no character lies in two regions or in none. Bounded (native, labelled): what happens inside a free-text region (_end_implicit_comment strips only whitespace: its contract is assumed, 38 of 40 obligations), CRLF / backslash-newline families, that every newline character is a newline mark (R5 of A-RE, validated bounded).",
+        "level_text": "Mixed. Proved on the real splitter functions (A-RE assumed): the line counter equals the number of newline marks consumed minus one at every call boundary (scan invariant), every block's start_line is the line of its '@' mark and every field's start_line the line of its '='; raw of a block is text[start of '@' : end of its closing '}'], raw of a failed block is text[start of '@' : end_index] where end_index is the start of the handed-back mark or the end of the text, the next free text starts exactly there (no character between a failed block and what follows is dropped or shared), and the pending free-text start never lies beyond unconsumed text; TILING as a postcondition of split(): ghost code records one region of the text per step -- the free text handed to _end_implicit_comment and the raw text of every block or failed block added to the library -- and the regions are consecutive, start at 0, end at the end of the text, and the raw of every block region is exactly that piece of the text (also through Library.add's duplicate wrappers), so no character lies in two regions or in none. Inside a free-text region (_end_implicit_comment, verified in full): every character before the scan position `lead` is whitespace, nothing is returned exactly when nothing is pending or region[lead:].rstrip() is empty, otherwise raw = comment = region[lead:].rstrip() (non-empty) and the start line is the pending line plus the newlines before lead. Bounded (native, labelled): the two facts about str.rstrip that turn this into 'only whitespace is dropped' (A-STR), CRLF / backslash-newline families, that every newline character is a newline mark (R5 of A-RE, validated bounded).",
         "level_note": MARK_NOTE,
         "modules": ["schema", "library", "model", "splitter"],
-        "functions": SPLIT_SCANNERS + SPLIT_HANDLERS + [SP + "split", SP + "_end_implicit_comment", LB + "add#single-quiet", LB + "_cast_to_duplicate", LB + "_add_to_dicts"],
+        "functions": SPLIT_SCANNERS + SPLIT_HANDLERS + [SP + "split", SP + "_end_implicit_comment", SP + "_end_implicit_comment#for-split", LB + "add#single-quiet", LB + "_cast_to_duplicate", LB + "_add_to_dicts"],
         "tags": ["C03", "C09", "C08"],
         "lemmas": SPLIT_LEMMAS,
         "native": "p03",
         "assumption_checks": ["A-RE"],
-        "explanation": "proved: line counting, start lines, raw boundaries, and the tiling of the text by free-text regions and block raw texts as a postcondition of split(); bounded: whitespace-only stripping inside free-text regions (assumed contract of _end_implicit_comment), CRLF/backslash families",
+        "explanation": "proved: line counting, start lines, raw boundaries, and the tiling of the text by free-text regions and block raw texts as a postcondition of split(); bounded: the semantics of str.rstrip inside free-text regions (A-STR), CRLF/backslash families",
     },
     "C04": {
         "level": "other",
         "level_text": "Mixed. Proved on the real splitter functions (A-RE assumed): marks are consumed strictly left to right (the cursor never decreases), at most one mark is pending and it is the one yielded last; no scanner or handler ever consumes an '@' mark: on meeting one it hands it back and aborts with end_index = its start, so split's next iteration starts a block exactly there; after every block or failure the scanner state is reset and nothing is pending except such a handed-back mark; at the end all marks are consumed; the blocks of successive block regions of the text sit at successive positions of the library (source order, ghost regions of split()). Bounded (native, labelled): equality of the blocks of D1+X+D2 with those of D1 and D2 (needs the grammar lemma for D1/D2), random corruptions.",
         "level_note": MARK_NOTE,
         "modules": ["schema", "library", "model", "splitter"],
-        "functions": SPLIT_SCANNERS + SPLIT_HANDLERS + [SP + "split", SP + "_end_implicit_comment"],
+        "functions": SPLIT_SCANNERS + SPLIT_HANDLERS + [SP + "split", SP + "_end_implicit_comment", SP + "_end_implicit_comment#for-split"],
         "lemmas": SPLIT_LEMMAS,
         "native": "p04",
         "assumption_checks": ["A-RE"],
